@@ -287,7 +287,8 @@ def run_batch(root, spec, base_seed, budget, thorough, scratch, nworkers):
                 last[0] = time.time()
                 line = line.rstrip("\n")
                 if line.startswith("OOMK "):
-                    curk = line.split()[1]
+                    parts = line.split()
+                    curk = parts[1] + ((",gap=" + parts[2]) if len(parts) > 2 and parts[2] != "-1" else "")
                     continue
                 if line.startswith("RUN "):
                     cur = int(line.split()[1])
@@ -384,9 +385,9 @@ def handle_failure(root, spec, prop, fl, thorough, scratch, known, tier):
                 opkind += ":" + (p[4] if opkind == "query" else "type" + p[3].split(",")[0])
     # fault-enumeration checks: pin the failing allocation index so that replay and minimisation
     # re-execute one run instead of the whole enumeration
-    mk = re.search(r"\[oom\.k=(-?\d+)\]", fl.get("detail", "") or "")
+    mk = re.search(r"\[oom\.k=(-?\d+)(?:,gap=(-?\d+))?\]", fl.get("detail", "") or "")
     if mk and "cfg oom.enumerate 1" in text:
-        text = text.replace("cfg oom.enumerate 1", "cfg oom.enumerate 0\ncfg oom.k %s" % mk.group(1))
+        text = text.replace("cfg oom.enumerate 1", "cfg oom.enumerate 0\ncfg oom.k %s\ncfg oom.gap %s" % (mk.group(1), mk.group(2) or "-1"))
     os.makedirs(os.path.join(root, "replays"), exist_ok=True)
     ppath = os.path.join(scratch, "fail-%d.plan" % fl["seed"])
     with open(ppath, "w") as f:
